@@ -502,6 +502,9 @@ func (env *SpecEnv) evalCall(e *SExpr) TV {
 		if tv, ok := env.streamBuiltin(name, e); ok {
 			return tv
 		}
+		if tv, ok := env.fsBuiltin(name, e); ok {
+			return tv
+		}
 		if name == "ncalls" || name == "callarg" || name == "callret" || name == "callrecv" {
 			if len(e.Args) == 0 || e.Args[0].K != "str" {
 				env.fail(e, name+": first argument must be a string literal (callee expression text)")
